@@ -161,6 +161,9 @@ def run(ctx):
     # ---- a checkpoint holds a snapshot of the history, not the live lists
     from ..report import reuse
     from . import c11
+    from . import c10
+    reuse(ctx, lambda c: c10.own_rule(c), ("C10.own",), "C18own", "ownership rule shared with C10: the history stores the population objects themselves, so an in-place write into "
+          "a caller's array rewrites a population that was already recorded")
     reuse(ctx, c11.run, ("C11.cut",), "C18cut", "cut-point rule shared with C11: a checkpoint taken before the iteration's last history append restores a history that lacks that entry")
     reuse(ctx, c11.run, ("C11.snapshot",), "C18ckpt", "snapshot rule shared with C11: a resumed run's history starts from what the checkpoint recorded")
 
